@@ -117,6 +117,12 @@ func shapeOf(e influxql.Expr) string {
 		return "/" + e.Val.String() + "/"
 	case *influxql.IntegerLiteral:
 		return fmt.Sprint(e.Val)
+	case *influxql.Call:
+		var as []string
+		for _, a := range e.Args {
+			as = append(as, shapeOf(a))
+		}
+		return e.Name + "{" + strings.Join(as, ", ") + "}"
 	case nil:
 		return "<nil>"
 	default:
@@ -313,6 +319,31 @@ func c03One(c *Ctx, toks []c03tok, compact bool, local map[string]int64) {
 		return
 	}
 	local["roundtrip-ok"]++
+	// the same chain as a call argument: bare, in one group, in two groups
+	if mon.Hash64(text)%5 == 0 && !compact {
+		wt := "fn(" + text + ", (" + text + "), ((" + text + ")))"
+		ww := "fn{" + want + ", [" + want + "], [[" + want + "]]}"
+		var ce influxql.Expr
+		var cerr error
+		if p, pv, st := mon.Try(func() { ce, cerr = influxql.ParseExpr(wt) }); p {
+			r.Violation("panic-in-ParseExpr", map[string]interface{}{"input": wt, "why": fmt.Sprint(pv), "stack": st})
+			return
+		}
+		r.Eval(1)
+		if cerr != nil {
+			r.Violation("chain-rejected", map[string]interface{}{"input": wt, "why": cerr.Error()})
+			return
+		}
+		if g := shapeOf(ce); g != ww {
+			r.Violation("wrong-grouping", map[string]interface{}{"input": wt, "why": "want " + ww + " got " + g})
+			return
+		}
+		if e2, err2 := influxql.ParseExpr(ce.String()); err2 != nil || shapeOf(e2) != ww {
+			r.Violation("roundtrip-regroups", map[string]interface{}{"input": wt, "why": fmt.Sprintf("printed %q re-parses to %s (err %v), original %s", ce.String(), shapeOf(e2), err2, ww)})
+			return
+		}
+		local["as-call-arguments"]++
+	}
 }
 
 // c03Optional: spellings the grammar does not promise (a sign directly after a
@@ -352,7 +383,7 @@ func init() { Registry["C03"] = checkC03 }
 
 func checkC03(c *Ctx) (string, bool, []string) {
 	r := c.R
-	rule := "all chains of k operators over the 19 operator spellings for k<=3 (k<=4 in thorough), compact and spaced; all placements of one or two parenthesised sub-chains for k<=3 with one operator per level; signed operand (-x, +x, signed references with a ::type cast) and an operand inside one or two pairs of parentheses of its own at each position for k<=2; negated and explicitly positive parenthesised groups; groups whose whole content is a group; random chains k=5..12 (an eighth of them k=13..48) with parentheses and negations; sign-after-sign spellings (`- -b`, `+ -b`, `-(-b)`, ...) behind every operator, judged only when the parser accepts them. Each case: ParseExpr shape vs reference grouper, then String()+ParseExpr shape. Non-trivial = k>=2 (grouping is observable); distinct by rendered text."
+	rule := "all chains of k operators over the 19 operator spellings for k<=3 (k<=4 in thorough), compact and spaced; all placements of one or two parenthesised sub-chains for k<=3 with one operator per level; signed operand (-x, +x, signed references with a ::type cast) and an operand inside one or two pairs of parentheses of its own at each position for k<=2; negated and explicitly positive parenthesised groups; groups whose whole content is a group; random chains k=5..12 (an eighth of them k=13..48) with parentheses and negations; sign-after-sign spellings (`- -b`, `+ -b`, `-(-b)`, ...) behind every operator, judged only when the parser accepts them. Each case (and a fifth of them again as three arguments of a call: bare, in one group, in two groups): ParseExpr shape vs reference grouper, then String()+ParseExpr shape. Non-trivial = k>=2 (grouping is observable); distinct by rendered text."
 	assume := []string{"the five precedence levels and left associativity as written in the property statement", "a negated operand -x or -( … ) denotes the node (-1 * x) treated as an atom"}
 
 	if c.Replay != nil {
